@@ -73,6 +73,12 @@ func TestC22Replay(t *testing.T) {
 	if path == "" {
 		t.Skip("VERIF_REPLAY not set")
 	}
+	c22ReplayFile(t, "C22", path)
+}
+
+// c22ReplayFile is what `./check C22|C23 --replay <file>` runs (DESIGN M10): the recorded
+// (minimised) query on freshly built shards holding the recorded writes, with the oracle's diff.
+func c22ReplayFile(t *testing.T, prop, path string) {
 	q, specs, err := c22LoadWitness(path)
 	if err != nil {
 		t.Fatal(err)
@@ -101,6 +107,12 @@ func TestC22Replay(t *testing.T) {
 		}
 		cl, d, exp := c22Check(st, m, c22ReplayQ)
 		fmt.Printf("REFERENCE for %s\n  ambiguous=%q class=%q\n  %s\n", c22ReplayQ.String(), exp.Ambiguous, cl, d)
+		if cl != "" {
+			fmt.Printf("VIOLATION property=%s replay=%s\n  class=%s (replayed)\n", prop, path, cl)
+			defer t.Fatalf("replayed witness still disagrees: %s", cl)
+		} else {
+			fmt.Printf("replay: engine and reference agree on the recorded case\n")
+		}
 		for _, s := range exp.Series {
 			fmt.Printf("  want %s{%s} optional=%v %s\n", s.Name, c22TagString(s.Tags), s.Optional, c22FmtGroups(s.Groups))
 		}
